@@ -4,11 +4,14 @@
    that with the client's reading of the reply line (the functions the operations of Model/Client.v apply):
    for every server state -- hence after every history, with any clock -- the value the client computes is the
    documented result for what the server did.  PARTIAL: the single-line commands (set/add/replace/append/prepend/
-   cas, delete, incr/decr, touch, flush_all) are proved; retrievals are C04; that run_op performs exactly
-   "send render(intent), read one line per command, apply this reading" on a fault-free connection is covered
-   by C02 (send), C03 (readers) and the differential run of this check, not by one end-to-end theorem. *)
+   cas, delete, incr/decr, touch, flush_all) are proved at the level of one reply line (the _partial theorems), and END TO END
+   on the Client model for the one-command operations set/add/replace/append/prepend, delete, incr, decr, touch,
+   flush_all (the c05_e2e theorems): on a connected client with nothing pending, a fault-free transport and the specification
+   server as the peer, run_op returns exactly the documented result of what the server did, the server state
+   advances by exactly that command, and nothing is left unread.  Still checked rather than proved: retrievals
+   (C04), cas, the multi-key operations, and calls that have to (re)connect first. *)
 From Coq Require Import ZArith List Bool.
-From PM Require Import Lib.Py Model.Lits Spec.Proto Spec.Server Model.Client Proofs.C05Proof.
+From PM Require Import Lib.Py Model.Lits Spec.Proto Spec.Server Model.World Model.Client Proofs.Hoare Proofs.C02Proof Proofs.C05Proof Proofs.Quiet Proofs.E2E.
 Import ListNotations.
 Open Scope Z_scope.
 
@@ -37,6 +40,57 @@ Proof. exact C05Proof.noreply_same_effect. Qed.
 Theorem c05_reply_iff : forall (s : sstate) c, (snd (step s c) = []) <-> is_noreply c = true.
 Proof. exact C05Proof.reply_iff_not_noreply. Qed.
 Print Assumptions c05_reply_iff.
+
+(* ---- end to end on the Client model (Proofs/E2E.v): St sid s [] w = connected on sid, server state s, nothing pending ---- *)
+Definition catches (c : cfg) : Prop :=
+  (forall e, exn_isa e Exception_ = true -> exn_isa e (h_misc c) = true) /\ (forall e, exn_isa e Exception_ = true -> exn_isa e (h_store c) = true).
+
+Theorem c05_e2e_delete : forall c, (forall e, exn_isa e Exception_ = true -> exn_isa e (h_misc c) = true) ->
+  forall sid s key n k, check_key c (c_prefix c) key = Ok k ->
+  let nr := eff_noreply c n in
+  let s' := fst (exec s (CDelete k nr)) in let o := snd (exec s (CDelete k nr)) in
+  hoare (St sstate sid s []) (run_op sstate serve c (OpDelete key n))
+        (fun v w => v = (if nr then DBool true else contract_delete o) /\ St sstate sid s' [] w) (fun _ _ => False).
+Proof. exact E2E.delete_e2e. Qed.
+Print Assumptions c05_e2e_delete.
+Theorem c05_e2e_touch : forall c, (forall e, exn_isa e Exception_ = true -> exn_isa e (h_misc c) = true) ->
+  forall sid s key expire n k eb, check_key c (c_prefix c) key = Ok k -> check_integer c expire = Ok eb -> in_i64 expire ->
+  exists z, int_value expire = Some z /\
+  let nr := eff_noreply c n in
+  let s' := fst (exec s (CTouch k z nr)) in let o := snd (exec s (CTouch k z nr)) in
+  hoare (St sstate sid s []) (run_op sstate serve c (OpTouch key expire n))
+        (fun v w => v = (if nr then DBool true else contract_touch o) /\ St sstate sid s' [] w) (fun _ _ => False).
+Proof. exact E2E.touch_e2e. Qed.
+Theorem c05_e2e_flush : forall c, (forall e, exn_isa e Exception_ = true -> exn_isa e (h_misc c) = true) ->
+  forall sid s delay n db, check_integer c delay = Ok db -> (forall z, int_value delay = Some z -> 0 <= z < 2 ^ 63) ->
+  exists z, int_value delay = Some z /\
+  let nr := eff_noreply c n in
+  let s' := fst (exec s (CFlush z nr)) in
+  hoare (St sstate sid s []) (run_op sstate serve c (OpFlushAll delay n)) (fun v w => v = DBool true /\ St sstate sid s' [] w) (fun _ _ => False).
+Proof. exact E2E.flush_e2e. Qed.
+(* incr / decr: the new counter, None when absent or under noreply; a non-numeric item raises MemcacheClientError and the connection is closed *)
+Theorem c05_e2e_arith : forall c, (forall e, exn_isa e Exception_ = true -> exn_isa e (h_misc c) = true) ->
+  forall sid s (inc : bool) key value n k vb, check_key c (c_prefix c) key = Ok k -> check_integer c value = Ok vb ->
+  (forall z, int_value value = Some z -> 0 <= z < 2 ^ 64) ->
+  exists z, int_value value = Some z /\
+  let nr := py_truthy n in
+  let s' := fst (exec s (CArith inc k z nr)) in let o := snd (exec s (CArith inc k z nr)) in
+  hoare (St sstate sid s []) (run_op sstate serve c (if inc then OpIncr key value n else OpDecr key value n))
+        (fun v w => (if nr then v = DNone else contract_arith o = Ok v) /\ St sstate sid s' [] w)
+        (fun e w => nr = false /\ contract_arith o = Raise e /\ w_sock w = None).
+Proof. exact E2E.arith_e2e. Qed.
+Print Assumptions c05_e2e_arith.
+(* set / add / replace / append / prepend of one key: True / False as the server stored it or not (True under noreply) *)
+Theorem c05_e2e_store : forall c, (forall e, exn_isa e Exception_ = true -> exn_isa e (h_store c) = true) ->
+  forall sid s verb key value expire n flags bytes,
+  let nr := eff_noreply c n in let v := sv_of verb in
+  store_bytes c (verb_name verb) [(key, value)] expire nr flags None = Ok bytes -> in_i64 expire -> in_u32 flags ->
+  exists k f e db, store_intent c v [(key, value)] expire nr flags [] = Ok [CStore v k f e db [] nr] /\
+  let s' := fst (exec s (CStore v k f e db [] nr)) in let o := snd (exec s (CStore v k f e db [] nr)) in
+  hoare (St sstate sid s []) (run_op sstate serve c (OpStore verb key value expire n flags))
+        (fun r w => r = (if nr then DBool true else contract_store o) /\ St sstate sid s' [] w) (fun _ _ => False).
+Proof. exact E2E.store_e2e. Qed.
+Print Assumptions c05_e2e_store.
 
 (* non-vacuity: a short history with a cas race, a counter and an expiry *)
 Example c05_ex :
